@@ -271,7 +271,7 @@ def run(ctx):
     rng = ctx.rng
     lim_cases, thr_cases = [], []
     rates = [Fraction(1, 8), Fraction(1, 4), Fraction(1, 2), Fraction(3, 4), Fraction(1), Fraction(3, 2), Fraction(2), Fraction(5, 2), Fraction(10), Fraction(100)]
-    nl = 600 if ctx.thorough else 120
+    nl = 3000 if ctx.thorough else 120
     for i in range(nl):
         rate = rates[i % len(rates)]
         readings = gen_readings(rng, rng.randint(3, 60))
@@ -310,7 +310,7 @@ def run(ctx):
                 exp = [0] + passes + [-1, res[2].numerator, res[2].denominator, res[3].numerator, res[3].denominator]
                 lim_cases.append((f'({q(rate)}, [{"; ".join(q(x) for x in readings)}])', czl(exp)))
     # ---- throttle
-    nt = 600 if ctx.thorough else 150
+    nt = 3000 if ctx.thorough else 150
     skipped = 0
     corpus = [(Fraction(180), Fraction(0), Fraction(1), [('a', Fraction(1))])]
     for i in range(nt):
